@@ -8,9 +8,9 @@
    [spec_events] is the list of (block time, end-of-block prices) the history prescribes, [price_at] the price in force
    on a millisecond slot (the price of the last event at or before it), [integral] the sum over millisecond slots.
    The statements hold for every logarithm / power function [lg], [ex] plugged into the model. *)
-From Coq Require Import ZArith List Bool Lia.
+From Coq Require Import ZArith List Bool Lia Reals.
 Import ListNotations.
-From Osmo Require Import Base.DecModel Gen.C10_consts C10.Model C10.LogExp C10.Spec C10.ProofsSum C10.ProofsList C10.ProofsChain C10.ProofsTwap C10.ProofsLog C10.ProofsAnswer C10.ProofsFull C10.Lift C10.Corr C10.CorrLink.
+From Osmo Require Import Base.DecModel Gen.C10_consts C10.Model C10.LogExp C10.Spec C10.ProofsSum C10.ProofsList C10.ProofsChain C10.ProofsTwap C10.ProofsLog C10.ProofsAnswer C10.ProofsFull C10.Lift C10.Corr C10.CorrLink C10.GeomBound C10.GeomReal C10.BridgeC13.
 Open Scope Z_scope.
 
 (* arithmetic TWAP = the code's rounding (truncating division) of  sum p_i * dt_i / (end - start), for every history,
@@ -152,6 +152,47 @@ Theorem C10_arith_answered : forall ex t0 h0 w0 w1 evs p G now q0 start stop,
   exists f v, twap_between twap_log ex now p q0 false start stop = QVal f v.
 Proof. exact arith_answered_real. Qed.
 Print Assumptions C10_arith_answered.
+
+(* the value of the geometric TWAP as a real number (dR = value of an 18-decimal Dec, bR = value of a 36-decimal BigDec):
+   for ANY Exp2 that is accurate to a relative eta <= 1e-18 on the exponents it accepts (osmomath documents 1e-18; C13 proves
+   1e-19 for its model of the same code), an answer of the form [geom_answer] - which is what C10_geom_conditional
+   establishes for every history whenever the accumulator difference is non-zero - is 2^(+-m) up to a relative 5.1e-8
+   (SigFigRound keeps 8 digits) plus 3e-18, m = the truncated time-weighted mean of the accumulated 18-decimal logarithms.
+   _partial: the step from m to the true mean of log2(price) needs LogBase2's error bound (C13, not available yet).
+   Depends on the standard library's axioms for the real numbers. *)
+Theorem C10_geom_value_partial : forall (ex : Z -> option Z) (eta : R),
+  (0 <= eta <= 1 / 10 ^ 18)%R ->
+  (forall e E, ex e = Some E -> 0 <= e -> (Rabs (bR E - Rpower 2 (bR e)) <= eta * Rpower 2 (bR e))%R) ->
+  forall diff n q0 v, geom_answer ex diff n q0 v ->
+  let m := Z.quot diff n in
+  let T := Rpower 2 (dR (Z.abs m)) in
+  let invert := ((m <? 0) && q0) || (negb (m <? 0) && negb q0) in
+  let target := if invert then (/ T)%R else T in
+  (Rabs (dR v - target) <= 51 / 10 ^ 9 * target + 3 / 10 ^ 18)%R.
+Proof. exact geom_value. Qed.
+Print Assumptions C10_geom_value_partial.
+
+(* ... and for the model's own Exp2 the hypothesis holds with eta = 1e-19: it returns what C13's model of the same code
+   returns (C10/BridgeC13.v), for which C13 proves |Exp2 e - 2^e| <= 1e-19 * 2^e.  So, for every history: *)
+Theorem C10_geom_twap_value_partial : forall t0 h0 w0 w1 evs p G now q0 start stop f v,
+  history twap_log t0 h0 w0 w1 evs p G -> r_time (p_recent p) <= now ->
+  t0 <= start -> max_keep t0 evs <= start -> ms start < ms stop ->
+  twap_between twap_log exp2 now p q0 true start stop = QVal f v ->
+  let diff := integral (fun tau => glogv twap_log (price_at (spec_events t0 w0 w1 evs) true 0 tau)) (ms start) (ms stop) in
+  diff <> 0 ->
+  let m := Z.quot diff (ms stop - ms start) in
+  let T := Rpower 2 (dR (Z.abs m)) in
+  let invert := ((m <? 0) && q0) || (negb (m <? 0) && negb q0) in
+  let target := if invert then (/ T)%R else T in
+  (Rabs (dR v - target) <= 51 / 10 ^ 9 * target + 3 / 10 ^ 18)%R.
+Proof. exact geom_twap_value. Qed.
+Print Assumptions C10_geom_twap_value_partial.
+
+(* the integer facts behind it: SigFigRound(d, 10^8) stays within d/(2*10^7) + 1 units of d *)
+Theorem C10_sigfig_round_close : forall d v, sigfig_round d = Some v -> 0 < d ->
+  Z.abs (v - d) * (2 * 10 ^ 7) <= d + 2 * 10 ^ 7.
+Proof. exact sigfig_round_close. Qed.
+Print Assumptions C10_sigfig_round_close.
 
 (* ---- the module as a whole ----
    [grun lg (ginit t0 h0 limit keep_period) zero_time ops = (st, km)]: the module state after any sequence of pool creations,
